@@ -158,18 +158,33 @@ pub fn install_worker_handlers(alloc_cap_bytes: i64) {
     CAP.store(LIVE.load(Ordering::Relaxed) + alloc_cap_bytes, Ordering::Relaxed);
 }
 
-/// Watchdog: if one case runs longer than `budget_ms`, report a timeout for it and exit.
+fn process_cpu_ms() -> u64 {
+    let mut ts = libc::timespec { tv_sec: 0, tv_nsec: 0 };
+    // SAFETY: plain syscall wrapper writing into a local
+    unsafe {
+        libc::clock_gettime(libc::CLOCK_PROCESS_CPUTIME_ID, &mut ts);
+    }
+    (ts.tv_sec as u64) * 1000 + (ts.tv_nsec as u64) / 1_000_000
+}
+
+/// Watchdog: if one case consumes more than `budget_ms` of *CPU time* (the property speaks of time out of
+/// proportion to the input, and CPU time does not depend on how loaded the machine is), report a timeout
+/// for it and exit. A wall-clock fallback of 30 x the budget catches a case that blocks without computing.
 pub fn start_watchdog(budget_ms: u64) {
     std::thread::spawn(move || {
         let mut last = STAMP.load(Ordering::SeqCst);
+        let mut since_cpu = process_cpu_ms();
         let mut since = std::time::Instant::now();
         loop {
             std::thread::sleep(std::time::Duration::from_millis(50));
             let now = STAMP.load(Ordering::SeqCst);
             if now != last {
                 last = now;
+                since_cpu = process_cpu_ms();
                 since = std::time::Instant::now();
-            } else if CUR.load(Ordering::SeqCst) != u64::MAX && since.elapsed().as_millis() as u64 > budget_ms {
+            } else if CUR.load(Ordering::SeqCst) != u64::MAX
+                && (process_cpu_ms().saturating_sub(since_cpu) > budget_ms || since.elapsed().as_millis() as u64 > budget_ms * 30)
+            {
                 die("timeout", 0);
             }
         }
